@@ -170,8 +170,11 @@ def agp_reference(log_x, zs, N, r):
 def c02(req, out):
     """every trial subdivides an interval of maximal characteristic; the point follows the rule (independent replay)"""
     n = 0
-    for N, kind, r, iters in ((1, 0, 2.5, 60), (1, 2, 3.0, 80), (2, 0, 2.5, 60), (1, 6, 2.2, 120), (3, 2, 3.0, 40), (1, 3, 2.0, 40)):
-        lo, up = boxes(N)[0]
+    # last rows: a box that is tiny in absolute units (lengths in metres on a nanometre scale) and one far from the origin
+    for N, kind, r, iters, box in ((1, 0, 2.5, 60, None), (1, 2, 3.0, 80, None), (2, 0, 2.5, 60, None), (1, 6, 2.2, 120, None),
+                                   (3, 2, 3.0, 40, None), (1, 3, 2.0, 40, None), (1, 1, 2.5, 40, ([0.0], [4e-9])),
+                                   (2, 1, 2.5, 40, ([0.0, 1e-9], [4e-9, 3e-9])), (2, 0, 2.5, 40, ([1000.0, -2000.5], [1001.0, -2000.0]))):
+        lo, up = box if box else boxes(N)[0]
         p = RecProblem(N, lo, up, kind)
         s = Solver(p, SolverParameters(r=r, eps=1e-12, itersLimit=10 ** 6))
         hist = []          # (x, z) in evaluation order
@@ -231,6 +234,12 @@ def c02(req, out):
                 out.append(dict(what="new point does not follow the AGP rule", N=N, kind=kind, r=r, trial=k + 1,
                                 observed=xnew, expected=exp))
                 return n
+        # the values the rule was computed from are the objective's values at the stored points
+        f = check_record(s, p, N, 10, "values used by the decision rule")
+        if f:
+            f.update(N=N, kind=kind, lower=list(map(float, lo)), upper=list(map(float, up)))
+            out.append(f)
+            return n
     return n
 
 
@@ -352,7 +361,7 @@ def c03(req, out):
 def c16(req, out):
     n = 0
     for N, kind in ((1, 0), (2, 2)):
-        for exc in (ValueError, KeyboardInterrupt, RuntimeError, Fail):
+        for exc in (ValueError, KeyboardInterrupt, RuntimeError, Fail, ZeroDivisionError, OverflowError, FloatingPointError, MemoryError):
             for k in (2, 3, 5, 17):
                 lo, up = boxes(N)[0]
                 p = RecProblem(N, lo, up, kind, fail_at=k, exc=exc)
@@ -479,8 +488,10 @@ def c11(req, out):
 def c05(req, out):
     n = 0
     for N, kind in ((1, 1), (2, 1), (2, 7), (3, 1), (2, 0)):
-        for lo, up in boxes(N) + [([0] * N, [1 + i for i in range(N)])]:
+        for lo, up in boxes(N) + [([0] * N, [1 + i for i in range(N)]), ([1000.0 + 10 * i for i in range(N)], [1001.0 + 10 * i for i in range(N)])]:
             p = RecProblem(N, lo, up, kind)
+            if kind == 0:
+                p.f = (lambda y, lo=lo: sum((float(v) - l - 0.3) ** 2 for v, l in zip(y, lo)))      # minimum inside every box
             s = Solver(p, SolverParameters(r=2.5, eps=0.05, itersLimit=80, refineSolution=True))
             sol, _ = quiet(s.Solve)
             n += 1
@@ -496,6 +507,23 @@ def c05(req, out):
                 out.append(dict(what="refined solution outside the box / worse than the best global trial / value differs from the "
                                      "objective at the returned point", point=pt, value=val, best_global=glob_best))
                 return n
+    # a steep objective on a box far from the origin, fine accuracy, a long refinement (its simplex shrinks far below the
+    # size of the coordinates)
+    for N, lim in ((2, 1500), (1, 600)):
+        lo, up = [1000.0 + 10 * i for i in range(N)], [1001.0 + 10 * i for i in range(N)]
+        p = RecProblem(N, lo, up, 0)
+        p.f = (lambda y, lo=lo: 1000.0 * sum((float(v) - l - 0.37 - 0.24 * j) ** 2 for j, (v, l) in enumerate(zip(y, lo))))
+        s = Solver(p, SolverParameters(r=3.0, eps=0.01, itersLimit=lim, refineSolution=True))
+        sol, _ = quiet(s.Solve)
+        n += 1
+        pt = [float(t) for t in sol.bestTrials[0].point.floatVariables]
+        val = float(sol.bestTrials[0].functionValues[0].value)
+        glob_best = min(v for _, v in p.log[:sol.numberOfGlobalTrials])
+        if not all(lo[j] <= pt[j] <= up[j] for j in range(N)) or p.f(pt) != val or val > glob_best:
+            out.append(dict(what="refined solution (box far from the origin): outside the box / reported value differs from the "
+                                 "objective at the returned point / worse than the best global trial", point=pt, value=val,
+                            objective_at_point=p.f(pt), best_global=glob_best, lower=lo, upper=up))
+            return n
     # bounds exactly as users write them: integer arrays and plain lists (odd sums, so that the box centre is not an integer)
     for N, lo, up in ((1, np.array([0]), np.array([3])), (2, np.array([0, 2]), np.array([1, 5])), (2, [0, 2], [1, 5]),
                       (3, np.array([-1, 0, 2]), np.array([2, 1, 7]))):
